@@ -262,8 +262,17 @@ func (t *ArrayTupleOfValue) ConcatVal(other Value) (Value, Value) {
 			newArrayTuple := make(ArrayListOfValue, len(*t), len(*t)+o.Length())
 			copy(newArrayTuple, *t)
 
-			for i, element := range o.Elements() {
-				newArrayTuple[len(*t)+i] = element
+			for _, element := range o.Elements() {
+				newArrayTuple = append(newArrayTuple, element)
+			}
+
+			return Ref(&newArrayTuple), Undefined
+		case ArrayTuple:
+			newArrayTuple := make(ArrayTupleOfValue, len(*t), len(*t)+o.Length())
+			copy(newArrayTuple, *t)
+
+			for _, element := range o.Elements() {
+				newArrayTuple = append(newArrayTuple, element)
 			}
 
 			return Ref(&newArrayTuple), Undefined
